@@ -167,6 +167,12 @@ fn c18_sync_flush() {
     if n_file > 0 && choice(2) == 1 {
         other.update_addr_status(&quic(2, 1), choice(2) == 1);
     }
+    // the other process may know peer 1 too, under different addresses
+    let file_knows_peer1 = choice(2) == 1;
+    if file_knows_peer1 {
+        other.add_addr(quic(1, 2));
+        other.add_addr(ws(1, 2));
+    }
     other.write().expect("write");
     let file_side = all_pairs(&other.data);
     let file_written_at = now_secs();
